@@ -174,6 +174,12 @@ type Engine interface {
 	Execute(sc *Scenario, st *Stats) (v *Violation, nontrivial bool)
 }
 
+// IndexedGenerator is optionally implemented by engines that partition a finite fault space by
+// run index (fault enumeration): i is the run index within the batch, n the number of runs.
+type IndexedGenerator interface {
+	GenerateIndexed(i, n int, r *Rand, tier Tier) *Scenario
+}
+
 // Simplifier is optionally implemented by engines to offer smaller variants of a scenario
 // (knob reduction, per-op simplification) beyond dropping ops.
 type Simplifier interface {
